@@ -195,9 +195,7 @@ def handle1 (args : List String) : String :=
     showU (Shape.staticScatterRun (getS a "red" == "none" || getS a "red" == "-") (getShape a "data") (getShape a "upd") idx) true
   | "cast" :: a => fireIf (Linalg.noOpCastCheck ((getOptInt a "x").map Int.toNat) (getNat a "to")) true
   | "castcast" :: a =>
-    fireIf (Linalg.castCastCheck (getNat a "t2") (getNat a "t3"))
-      (match getOptInt a "x" with | some x => Linalg.exactInFloat.contains x.toNat | none => false)
-      s!"to={getNat a "t3"} "
+    fireIf (Linalg.castCastCheck ((getOptInt a "x").map Int.toNat) (getNat a "t2") (getNat a "t3")) true s!"to={getNat a "t3"} "
   | "gemm" :: a =>
     let ro (k : String) : Option Nat := (getOptInt a k).map Int.toNat
     let cs : Option (List Nat) := (getOptInts a "c").map (·.map Int.toNat)
@@ -231,8 +229,8 @@ def handle1 (args : List String) : String :=
        let xrun := ((getOptInts a "xr").getD []).map Int.toNat
        let yrun := ((getShape a "y").getD []).filterMap Shape.Dim.nat?
        let preluBad := getBool a "prelu1" && Shape.specBroadcast xrun yrun != some xrun
-       fireIf (Linalg.expandRemovableConst (getShape a "x") (getShape a "y") e)
-         (!preluBad)
+       -- no ExpandFirst rule exists for PRelu
+       fireIf (!getBool a "prelu1" && Linalg.expandRemovableConst (getShape a "x") (getShape a "y") e) (!preluBad)
      | none => "badline")
   | "mmreshape" :: a =>
     let p : More.MatmulReshape := { a := getShape a "a", b := getShape a "b", shapeC := getOptInts a "c", shapeCRank1 := getS a "c1" != "0" }
